@@ -234,9 +234,41 @@ func checkConfigSections(doc map[string]any, cfg map[string]any, where string, r
 			report("C08-config-security-schemes", fmt.Sprintf("%s: configured scheme %s is missing from the document", where, n))
 			continue
 		}
+		str := func(v any) string {
+			if v == nil {
+				return ""
+			}
+			return fmt.Sprint(v)
+		}
 		for cfgKey, docKey := range map[string]string{"type": "type", "in": "in", "fieldName": "name", "description": "description"} {
-			if fmt.Sprint(g[docKey]) != fmt.Sprint(w[cfgKey]) {
+			if str(g[docKey]) != str(w[cfgKey]) {
 				report("C08-config-security-schemes", fmt.Sprintf("%s: securitySchemes.%s.%s = %v, configuration says %v", where, n, docKey, g[docKey], w[cfgKey]))
+			}
+		}
+		// OAuth2 flows: each configured flow with its URLs and exactly its own scopes
+		wf, _ := w["flows"].(map[string]any)
+		gf, _ := g["flows"].(map[string]any)
+		for kind, wflow := range wf {
+			wm, _ := wflow.(map[string]any)
+			gm, _ := gf[kind].(map[string]any)
+			if gm == nil {
+				report("C08-config-security-flows", fmt.Sprintf("%s: securitySchemes.%s.flows.%s is missing", where, n, kind))
+				continue
+			}
+			for _, k := range []string{"authorizationUrl", "tokenUrl", "refreshUrl"} {
+				if str(gm[k]) != str(wm[k]) {
+					report("C08-config-security-flows", fmt.Sprintf("%s: securitySchemes.%s.flows.%s.%s = %v, configuration says %v", where, n, kind, k, gm[k], wm[k]))
+				}
+			}
+			ws, _ := wm["scopes"].(map[string]any)
+			gs, _ := gm["scopes"].(map[string]any)
+			if fmt.Sprint(ws) != fmt.Sprint(gs) {
+				report("C08-config-security-flows", fmt.Sprintf("%s: securitySchemes.%s.flows.%s.scopes = %v, configuration says %v", where, n, kind, gs, ws))
+			}
+		}
+		for kind := range gf {
+			if wf[kind] == nil {
+				report("C08-config-security-flows", fmt.Sprintf("%s: securitySchemes.%s has a flow %s the configuration does not", where, n, kind))
 			}
 		}
 	}
